@@ -23,14 +23,14 @@ import (
 // R and RW must fail with "not found" in every model, in every call; W must see its own value.
 
 type c15Cfg struct {
-	Kinds  []string `json:"kinds"` // per rule r0.. (saliences 9,6,3): "W" | "R" | "RW"
-	Model  string   `json:"model"`
-	B      bool     `json:"b"`
-	N      int      `json:"N,omitempty"`
-	M      int      `json:"M,omitempty"`
-	Names  []string `json:"names,omitempty"`
-	Dag    [][]string `json:"dag,omitempty"`
-	Pool   string   `json:"pool,omitempty"` // pool method: two overlapping requests on pool (1,2)
+	Kinds []string   `json:"kinds"` // per rule r0.. (saliences 9,6,3): "W" | "R" | "RW"
+	Model string     `json:"model"`
+	B     bool       `json:"b"`
+	N     int        `json:"N,omitempty"`
+	M     int        `json:"M,omitempty"`
+	Names []string   `json:"names,omitempty"`
+	Dag   [][]string `json:"dag,omitempty"`
+	Pool  string     `json:"pool,omitempty"` // pool method: two overlapping requests on pool (1,2)
 }
 
 type c15G struct{ N0, N1, N2, V int64 }
